@@ -194,9 +194,19 @@ mod tests {
     }
 }
 
+/// verification hook: lock-discipline monitor used in place of std's RwLock for the sync record store
+#[cfg(all(simple_dns_verif, feature = "sync"))]
+pub(crate) mod verif_lock;
+
 /// verification hook: thin public wrappers over crate-private items (no logic of their own)
 #[cfg(simple_dns_verif)]
 pub mod verif {
+    /// acquisitions of the sync store lock made by a thread that already held it (recorded by the monitor lock)
+    #[cfg(feature = "sync")]
+    pub fn take_lock_reports() -> Vec<String> {
+        crate::verif_lock::take_reports()
+    }
+
     pub use crate::resource_record_manager::{DomainResourceFilter, ResourceRecordManager};
     use crate::InstanceInformation;
     use simple_dns::{Name, Packet, ResourceRecord};
